@@ -1,6 +1,7 @@
 import Ufo2ftModel.Props.C06Complete
 import Ufo2ftModel.Props.C06CtxSound
 import Ufo2ftModel.Props.C06Frame
+import Ufo2ftModel.Props.C06CtxComplete
 /-!
 Property C06 — generated mark features make matching anchors coincide.
 
@@ -558,6 +559,111 @@ theorem C06_ctx_holds (i : Input) (X : ProgramX) (hwf : wf0 i = true) (hm : mode
   obtain ⟨L', hL', hat⟩ := attach_some h1
   simp only [mem_singleton] at hL'; subst hL'
   exact C06_ctx_offset i X hwf hm L' hL _ _ _ _ hat
+
+theorem attach_singleton (P : Program) (L : Lookup) (b m : String) (c : Option Nat) :
+    attach P [L] b m c = attachLookup P L b m c := by
+  unfold attach
+  cases h : attachLookup P L b m c <;> simp [h]
+
+/-- the contextual part of the extended model that carries the contextual attachments of glyph `gb` -/
+def ctxPartX (i : Input) (X : ProgramX) (gb : SrcGlyph) : CtxFeature :=
+  if isMarkGlyph i gb then X.mkmkCtx else X.markCtx
+
+/-- **C06_ctx_complete** (the converse of C06_ctx_offset): for a glyph with a contextual anchor `*k…` / `*k_N…` carrying a
+    non-empty GPOS_Context and a mark glyph with `_k` (so that the mark class exists), both passing the writer's filters for
+    the destination, the contextual part of the right feature — mkmk when the glyph is itself a mark glyph, else mark
+    (ligature lookup for a numbered anchor, base lookup otherwise) — has a referenced lookup that attaches the mark to the
+    glyph (component N−1), and a dispatch line for the anchor's context under the text before its ';' — provided no other
+    contextual anchor of the glyph has the same context and key (`ctxEligible`; without that proviso the clause is false:
+    C06_ctx_ligature_last_wins_counterexample). -/
+theorem C06_ctx_complete (i : Input) (X : ProgramX) (hwf : wf0 i = true) (hm : modelX i = .ok X) (gb gm : SrcGlyph)
+    (hgb : gb ∈ i.glyphs) (hgm : gm ∈ i.glyphs) (sb : SrcAnchor) (hsb : sb ∈ gb.anchors) (c : Option Nat)
+    (he : ctxEligible i gb gm c sb = true) :
+    (∃ L ∈ (ctxPartX i X gb).refs, (attachLookup X.plain L gb.name gm.name c).isSome = true) ∧
+    ∀ before after, splitCtx (ctxOfSrc sb) = .ok (before, after) →
+      ∃ text, HasLine (ctxPartX i X gb).disp before ("# " ++ after, text) := by
+  obtain ⟨al, cm, ck, hal, hctx, rfl⟩ := modelX_ok hm
+  obtain ⟨hnd, _⟩ := wf_iff i hwf
+  obtain ⟨F, hF, ⟨L, hL, hs⟩, hdisp⟩ := ctx_complete (alwf_of_ok hwf hal) (alcov_of_ok hal) hnd hctx hgb hgm hsb he
+  have hFeq : ctxPartX i ⟨⟨(build i al).classes, orderLookups (build i al).lookups (!cm.refs.isEmpty) (!ck.refs.isEmpty)⟩, cm, ck⟩ gb = F := by
+    unfold ctxPartX
+    unfold ctxFeatureOf at hF
+    rcases hF with ⟨rfl, hf⟩ | ⟨rfl, hf⟩
+    · split at hf
+      · simp at hf
+      · rename_i hmg; simp [hmg]
+    · split at hf
+      · rename_i hmg; simp [hmg]
+      · simp at hf
+  rw [hFeq]
+  refine ⟨⟨L, hL, ?_⟩, hdisp⟩
+  rw [← hs]; exact congrArg Option.isSome (attachLookup_congr (P' := build i al) (by rfl) L _ _ c)
+
+theorem mem_allQueries {i : Input} {K : Nat} {gb gm : SrcGlyph} (hgb : gb ∈ i.glyphs) (hgm : gm ∈ i.glyphs) {c : Option Nat}
+    (hc : c ∈ none :: (List.range K).map some) : (gb.name, gm.name, c) ∈ allQueries i K := by
+  unfold allQueries
+  exact mem_flatMap.mpr ⟨gb, hgb, mem_flatMap.mpr ⟨gm, hgm, mem_map.mpr ⟨c, hc, rfl⟩⟩⟩
+
+/-- the Bool predicate the driver evaluates on the observed contextual part holds of the model's: per feature, with the
+    attachment table of every referenced lookup over all queries -/
+theorem C06_ctx_complete_holds (i : Input) (X : ProgramX) (hwf : wf0 i = true) (hm : modelX i = .ok X) (K : Nat) :
+    holdsCtxComplete i K "mark" (X.markCtx.refs.map (fun L => tableOf X.plain [L] (allQueries i K))) X.markCtx.disp = true ∧
+    holdsCtxComplete i K "mkmk" (X.mkmkCtx.refs.map (fun L => tableOf X.plain [L] (allQueries i K))) X.mkmkCtx.disp = true := by
+  have key : ∀ (f : String) (F : CtxFeature), (∀ gb, ctxFeatureOf i gb = f → ctxPartX i X gb = F) →
+      holdsCtxComplete i K f (F.refs.map (fun L => tableOf X.plain [L] (allQueries i K))) F.disp = true := by
+    intro f F hF
+    simp only [holdsCtxComplete, all_eq_true, Bool.or_eq_true, Bool.not_eq_true', Bool.and_eq_true, any_eq_true, beq_iff_eq]
+    intro gb hgb sb hsb gm hgm c hc
+    cases he : (ctxEligible i gb gm c sb && ctxFeatureOf i gb == f) with
+    | false => exact Or.inl rfl
+    | true =>
+      right
+      simp only [Bool.and_eq_true, beq_iff_eq] at he
+      obtain ⟨⟨L, hL, hs⟩, hdisp⟩ := C06_ctx_complete i X hwf hm gb gm hgb hgm sb hsb c he.1
+      rw [hF gb he.2] at hL hdisp
+      constructor
+      · refine ⟨_, mem_map.mpr ⟨L, hL, rfl⟩, ?_⟩
+        cases ha : attachLookup X.plain L gb.name gm.name c with
+        | none => rw [ha] at hs; simp at hs
+        | some d =>
+          exact ⟨((gb.name, gm.name, c), d), mem_filterMap.mpr ⟨_, mem_allQueries hgb hgm hc,
+            by rw [attach_singleton, ha]; rfl⟩, rfl⟩
+      · cases hsp : splitCtx (ctxOfSrc sb) with
+        | error e => trivial
+        | ok ba =>
+          obtain ⟨text, hline⟩ := hdisp ba.1 ba.2 (by rw [hsp])
+          obtain ⟨d, hd, hd1, hl⟩ := hline
+          simp only [any_eq_true, Bool.and_eq_true, beq_iff_eq]
+          exact ⟨d, hd, hd1, _, hl, rfl⟩
+  constructor
+  · apply key
+    intro gb hf
+    unfold ctxPartX; unfold ctxFeatureOf at hf
+    split at hf
+    · simp at hf
+    · rename_i hmg; simp [hmg]
+  · apply key
+    intro gb hf
+    unfold ctxPartX; unfold ctxFeatureOf at hf
+    split at hf
+    · rename_i hmg; simp [hmg]
+    · simp at hf
+
+/-- **C06_ctx_ligature_last_wins_counterexample**: without the proviso of C06_ctx_complete the clause is false.  Two contextual
+    anchors of one ligature with the same context and key on DIFFERENT components (`*top_1` and `*top_2`, both "* x") make two
+    `pos ligature f_i …` statements in one referenced lookup — each with its own component filled and the other NULL —, and
+    feaLib keeps only the last statement of a glyph: the loop body `ctxStep` produces a lookup whose only entry is the second
+    statement, so component 1 (index 0) gets no contextual attachment although its anchor is there. -/
+theorem C06_ctx_ligature_last_wins_counterexample :
+    let e1 : Entry := ⟨"f_i", [[("MC_top", 100, 200)], []]⟩
+    let e2 : Entry := ⟨"f_i", [[], [("MC_top", 150, 550)]]⟩
+    let P : Program := ⟨[("MC_top", [⟨"m", 10, 20⟩])], []⟩
+    ∃ st, ctxStep [("top", "MC_top")] "mark" "ContextualMark" .liga "* x" "top" ["f_i", "f_i"] [e1, e2] ⟨[], []⟩ = .ok st ∧
+      st.refs.map (·.entries) = [[e2]] ∧
+      attachLookup P ⟨"mark", .liga, [e2]⟩ "f_i" "m" (some 0) = none ∧
+      attachLookup P ⟨"mark", .liga, [e2]⟩ "f_i" "m" (some 1) = some (140, 530) ∧
+      attachLookup P ⟨"mark", .liga, [e1]⟩ "f_i" "m" (some 0) = some (90, 180) := by
+  refine ⟨_, rfl, by decide, by decide, by decide, by decide⟩
 
 /-- **C06_frame**: on a font without object-lib data (`wf`) the writer with the contextual code is the writer without it:
     same mark classes, same lookups in the same order, no contextual lookups — so every theorem about `model` is a theorem
